@@ -160,3 +160,19 @@ M("C16-R2-replace-swapped", "C16", [(F, "let from = &function_args[0];\n        
 M("C16-R2-substr-zero-based", "C16", [(F, "false => *&function_args[0].parse::<i32>().unwrap() - 1,", "false => *&function_args[0].parse::<i32>().unwrap(),")], ["operand_Substring"])
 M("C16-R2-month-year", "C16", [(F, "Ok(date) => Variant::from_int(date.0.month() as i64),", "Ok(date) => Variant::from_int(date.0.year() as i64),")], ["primitive_Month"])
 M("C16-R4-arg-not-evaluated", "C16", [(S, "                    let arg_value =\n                        self.get_column_expr_value(entry, file_info, file_map, buffer_data, arg);\n                    function_args.push(arg_value.to_string());", "                    function_args.push(arg.to_string());")], ["composition"])
+
+# ---------------------------------------------------------------- C01
+M("C01-R1-min-gate-strict", "C01", [(S, "if min_depth == 0 || depth >= min_depth {", "if min_depth == 0 || depth > min_depth {")], ["depth_report-gate"])
+M("C01-R1-max-gate-le", "C01", [(S, "if max_depth == 0 || depth < max_depth {", "if max_depth == 0 || depth <= max_depth {")], ["depth_descend-gate"])
+M("C01-R1-depth-no-plus-one", "C01", [(S, "let depth = canonical_depth - base_depth + 1;", "let depth = canonical_depth - base_depth;")], ["depth_"])
+M("C01-R1-calc-depth-dot", "C01", [(U, 's.matches("/").count() as u32', 's.matches(".").count() as u32')], ["calc_depth"])
+M("C01-R2-skip-dotfiles", "C01", [(S, "                            if pass_ignores {\n                                if min_depth == 0", "                            if pass_ignores && !entry.file_name().to_string_lossy().starts_with('.') {\n                                if min_depth == 0")], ["skip_guard"])
+M("C01-R2-continue-on-special", "C01", [(S, "                        Ok(entry) => {\n                            let mut path = entry.path();", "                        Ok(entry) => {\n                            if entry.file_type().map(|t| !t.is_file() && !t.is_dir() && !t.is_symlink()).unwrap_or(false) {\n                                continue;\n                            }\n                            let mut path = entry.path();")], ["skip_early-exit"])
+M("C01-R3-pop-back", "C01", [(S, "self.dir_queue.pop_front().unwrap()", "self.dir_queue.pop_back().unwrap()")], ["queue_"])
+M("C01-R3-nested-drains", "C01", [(S, "                                                    traversal_mode,\n                                                    false,\n                                                );", "                                                    traversal_mode,\n                                                    true,\n                                                );")], ["queue_nested"])
+M("C01-R4-dfs-root-depth", "C01", [(S, "                                                    max_depth,\n                                                    base_depth,", "                                                    max_depth,\n                                                    root_depth,")], ["recursion_"])
+M("C01-R4-swapped-min-max", "C01", [(S, "                    &path,\n                    min_depth,\n                    max_depth,\n                    base_depth,", "                    &path,\n                    max_depth,\n                    min_depth,\n                    base_depth,")], ["recursion_"])
+M("C01-R5-symlink-gate-open", "C01", [(S, "            false => !file_type.is_symlink(),\n        }\n    }\n\n    #[cfg(not(unix))]", "            false => true,\n        }\n    }\n\n    #[cfg(not(unix))]")], ["symlink-gate_table"])
+M("C01-R5-default-root", "C01", [("src/query.rs", 'path: String::from("."),', 'path: String::from("/"),')], ["default-root"])
+M("C01-V-min-gate-mirrored", "C01", [(S, "if min_depth == 0 || depth >= min_depth {", "if min_depth == 0 || min_depth <= depth {")], kind="variant")
+M("C01-V-max-gate-negated", "C01", [(S, "if max_depth == 0 || depth < max_depth {", "if max_depth == 0 || !(depth >= max_depth) {")], kind="variant")
